@@ -499,8 +499,47 @@ def k_metric_reuse(run, case):
               key="metric-reuse:stale-pairs")
 
 
+def k_cli(run, case):
+    """
+    evo_rpe end to end: the pairs it evaluates (recorded at the selection call) on the processed
+    trajectory are judged against the delta, unit, tolerance (incl. 0) and mode given on the
+    command line.  The run itself is C02's workload executor (its own clauses are judged too).
+    """
+    from vmon.props import C02
+    rec = C02.k_cli(run, case)
+    if not rec:
+        run.hit("evo_rpe run refused / ambiguous / no pairs (not judged here)")
+        return
+    sel = rec["selection"]
+    tr = rec["processed"][0] if rec["from_ref"] else rec["processed"][1]
+    p, R, pairs = np.asarray(tr.p, dtype=float), np.asarray(tr.R, dtype=float), rec["pairs"]
+    n = len(p)
+    c = dict(case, **{"selection": sel})
+    label = "evo_rpe %s %s" % (sel["unit"], "all_pairs" if sel["all_pairs"] else "consecutive")
+    if not check_range(run, c, pairs, n, label):
+        return
+    seg = np.linalg.norm(np.diff(p, axis=0), axis=1)
+    delta, tol = sel["delta"], sel["tol"]
+    if sel["unit"] == "f":
+        check_frames(run, c, pairs, n, int(delta), sel["all_pairs"])
+    elif sel["unit"] == "m":
+        band = 1e-9 * (float(np.sum(seg)) + float(np.max(np.abs(p))) + 1e-300)
+        if sel["all_pairs"]:
+            check_all_pairs_path(run, c, pairs, seg, delta, delta * tol, band)
+        else:
+            check_consecutive(run, c, pairs, seg, delta, band, "meters consecutive", "consec-path")
+    else:
+        d_rad = delta * PI / 180 if sel["unit"] == "d" else delta
+        if sel["all_pairs"]:
+            check_all_pairs_angle(run, c, pairs, R, d_rad, d_rad * tol)
+        else:
+            seg_ang = [rm.rot_angle(R[k].T @ R[k + 1]) for k in range(n - 1)]
+            check_consecutive(run, c, pairs, seg_ang, d_rad, 1e-9, "angle consecutive", "consec-angle")
+    run.hit("evo_rpe selections judged against the command line's delta / tolerance")
+
+
 KINDS = {"grid": k_grid, "random": k_random, "gridsel": k_replay_grid, "reuse": k_reuse,
-         "metric_reuse": k_metric_reuse}
+         "metric_reuse": k_metric_reuse, "cli": k_cli}
 
 
 def main(run):
@@ -522,11 +561,14 @@ def main(run):
         k_reuse(run, run.case("reuse", i))
     for i in run.mine({"quick": 300, "thorough": 6000}[run.tier]):
         k_metric_reuse(run, run.case("metric_reuse", i))
+    for i in run.mine({"quick": 60, "thorough": 1500}[run.tier]):
+        k_cli(run, run.case("cli", i, force_tol=[0.0, 0.05, 0.0, 0.3][i % 4], force_all_pairs=bool(i % 3 != 0),
+                            force_unit="mrdf"[(i // 2) % 4]))
     # sizes beyond typical block / chunk sizes (1024, 2048): a few in the quick tier, more in thorough
     for i in run.mine({"quick": 8, "thorough": 48}[run.tier]):
         u, ap = [("r", 1), ("d", 1), ("m", 1), ("f", 1), ("r", 1), ("m", 0), ("d", 0), ("d", 1)][i % 8]
         k_random(run, run.case("random", 10**6 + i, big=True, unit=u, all_pairs=bool(ap)))
-    run.need("re-used metric evaluates the pairs selected on the current poses", "pairs satisfy 0 <= i < j < N", "frames: exactly the delta pairs",
+    run.need("evo_rpe selections judged against the command line's delta / tolerance", "re-used metric evaluates the pairs selected on the current poses", "pairs satisfy 0 <= i < j < N", "frames: exactly the delta pairs",
              "meters consecutive: j is the first pose reaching delta since i",
              "meters consecutive: delta hit exactly by a selected pair",
              "angle consecutive: j is the first pose reaching delta since i",
